@@ -1014,7 +1014,13 @@ class UTPM(Ring, RawAlgorithmsMixIn):
         else:
             xbar, = out
 
-        xbar.data.real = ybar.data
+        if numpy.shares_memory(xbar.data, ybar.data):
+            # real(x) of complex data is a view of x and ybar already is the
+            # view real(xbar): nothing to add
+            xbar.data.real = ybar.data
+        else:
+            # real(x) of real data is x itself with an adjoint buffer of its own
+            xbar.data.real += ybar.data
 
     @classmethod
     def imag(cls, x):
@@ -1029,7 +1035,8 @@ class UTPM(Ring, RawAlgorithmsMixIn):
 
         else:
             xbar, = out
-        xbar.data.imag = -ybar.data
+        if numpy.iscomplexobj(xbar.data):
+            xbar.data.imag = -ybar.data
 
 
     @classmethod
